@@ -3,6 +3,7 @@ package main
 // Ops for C14 (symmetries), C15 (canonicalisation) and the opening-book part of C04.
 
 import (
+	"context"
 	"math/rand"
 	"sort"
 	"strconv"
@@ -373,6 +374,40 @@ func init() {
 		s.slots["book"] = ob
 		return dumpBook(ob)
 	}
+	// bookwrap: the wrapper users get (ai.WithOpeningBook around an inner player): in the book it answers with one of the
+	// stored moves (legal there), outside it hands the inner player's answer through unchanged
+	opTable["bookwrap"] = func(s *Session, a []string) string {
+		ob, ok := s.slots["book"].(*ai.OpeningBook)
+		if !ok {
+			return "nobook"
+		}
+		p := decPos(a[0])
+		inner := fixedPlayer{m: tak.Move{X: 127, Y: 126, Type: tak.PlaceCapstone}}
+		pl := ai.WithOpeningBook(inner, ob)
+		_, ms, _, inBook := ob.VerifBookEntry(p.Hash())
+		for i := 0; i < 6; i++ {
+			m := pl.GetMove(context.Background(), p)
+			if !inBook {
+				if m != inner.m {
+					return "outside-book-but-not-inner"
+				}
+				continue
+			}
+			found := false
+			for _, c := range ms {
+				if c.Equal(m) {
+					found = true
+				}
+			}
+			if !found {
+				return "not-a-book-move:" + encMove(m)
+			}
+			if _, err := p.Move(m); err != nil {
+				return "illegal:" + encMove(m)
+			}
+		}
+		return "ok"
+	}
 	opTable["bookget"] = func(s *Session, a []string) string {
 		ob, ok := s.slots["book"].(*ai.OpeningBook)
 		if !ok {
@@ -414,3 +449,8 @@ func init() {
 		return "some " + fmtChildren(ms, ws) + " " + in + " " + legal
 	}
 }
+
+// fixedPlayer: an inner player whose answer is recognisable (an impossible move), to see that the wrapper hands it through
+type fixedPlayer struct{ m tak.Move }
+
+func (f fixedPlayer) GetMove(ctx context.Context, p *tak.Position) tak.Move { return f.m }
